@@ -1,5 +1,3 @@
-import re
-
 from excel2pycl.src.context import Context
 from excel2pycl.src.excel import Excel
 from excel2pycl.src.tokens import LambdaToken, PatternToken
@@ -15,41 +13,15 @@ class LambdaTokenTranslator(AbstractTranslator):
             token.expression, excel, context
         ) if token.expression else None
 
-        condition_symbol = '=='
-        condition_value = literal
-
-        if literal:
-            parsed_literal = re.findall(r'^\'(>=|<=|>|<|<>)((\d+)((\.)(\d+))?(e(-?\d+))?)?\'$', literal)
-            if parsed_literal:
-                parsed_literal = parsed_literal[0]
-                if parsed_literal[0]:
-                    condition_symbol = parsed_literal[0]
-                    if condition_symbol == '<>':
-                        condition_symbol = '!='
-
-                if parsed_literal[1]:
-                    condition_value = parsed_literal[1]
-                else:
-                    condition_value = expression
-
-            else:
-                if expression:
-                    condition_value = expression
-        else:
-            condition_value = expression
-
         if getattr(getattr(token.expression, 'left_operand', None), 'value', None) \
-                and isinstance(token.expression.left_operand.value[0], PatternToken):
-            return context.set_sub_cell(
-                token.in_cell, f'lambda x: isinstance(x, str) and '
-                               f're.fullmatch({condition_value}, x, re.IGNORECASE | re.DOTALL) is not None'
-            )
+                and isinstance(token.expression.left_operand.value[0], PatternToken) and len(token.expression.value) == 1:
+            # the text of the pattern itself, the wildcards are interpreted when the criterion is applied
+            expression = repr(token.expression.left_operand.value[0].value[0][1:-1])
+
+        # the meaning of a criterion depends on its value (">5", "<>x", "a*", a number, a date): see _accepts
+        if literal is not None and expression is not None:
+            return context.set_sub_cell(token.in_cell, f'lambda x: self._accepts(x, {literal}, {expression})')
 
         return context.set_sub_cell(
-            token.in_cell, f'lambda x: '
-                           f'self._parse_date_obj(x){condition_symbol}self._parse_date_obj({condition_value}) '
-                           f'if self._parse_date_obj({condition_value}) '
-                           f'else str(x).lower(){condition_symbol}str({condition_value}).lower() '
-                           f'if isinstance({condition_value}, str) '
-                           f'else x{condition_symbol}{condition_value}'
+            token.in_cell, f'lambda x: self._accepts(x, {literal if literal is not None else expression})'
         )
